@@ -161,7 +161,7 @@ class C10(IterCheck):
 class C11(IterCheck):
     pid = "C11"
     prop_module = "SigHook.Props.C11"
-    extra_modules = ("SigHook.Props.C11b",)
+    extra_modules = ("SigHook.Props.C11b", "SigHook.Props.C11c")
 
     def correspond(self, tier, seed, rng):
         res = super().correspond(tier, seed, rng)
